@@ -515,21 +515,28 @@ def judge_refused(history, i, st, prev, docs):
 
 
 def refusal_class(k, spec, exp):
-    """the known finding (known_findings.json) a refusal falls in, by the shape of the call - the
-    same call is refused on a stored document as well, upsert or not:
+    """the REPAIRED finding (known_findings.json, status fixed) a refusal falls in, by the shape
+    of the call - none of these labels is excused any more, so a refusal of one of these shapes is
+    reported under the name of the defect that has come back (and is not taken for
+    `refused-on-stored-too`):
     `pop-missing-refused`: $pop names a path the document does not hold (a no-op by the operator's
-    definition; the library raises KeyError);
+    definition; the library used to raise KeyError);
     `fam-empty-replacement`: find_one_and_replace with the empty replacement document (the
-    library asks for 'update or remove' by truth value);
+    library used to ask for 'update or remove' by truth value);
     `pullall-through-scalar-refused`: $pullAll names a path that leads through a value that is
-    neither a document nor an array (nothing to pull from: a no-op; the library raises
-    TypeError)"""
+    neither a document nor an array (nothing to pull from: a no-op; the library used to raise
+    TypeError) - repaired where that value holds the last component of the path; where it lies
+    further up, the refusal is the KNOWN finding `pullall-deep-through-scalar-refused`"""
     if k == 'find_one_and_replace' and spec == {}:
         return 'fam-empty-replacement'
     body = spec.get('$pop') if isinstance(spec, dict) else None
-    if isinstance(body, dict) and isinstance(exp, dict) and any(
-            refupdate.get_at(exp, str(p).split('.'))[0] == 'missing' for p in body):
-        return 'pop-missing-refused'
+    if isinstance(body, dict) and isinstance(exp, dict):
+        import props.c02 as c02
+        # (a component that is no index meeting an ARRAY is another matter: ValueError from
+        # int(component), C02's nonnumeric-component family, left to `refused-on-stored-too`)
+        if any(refupdate.get_at(exp, str(p).split('.'))[0] == 'missing' and
+               not c02.skips_component(exp, str(p).split('.')) for p in body):
+            return 'pop-missing-refused'
     body = spec.get('$pullAll') if isinstance(spec, dict) else None
     if isinstance(body, dict) and isinstance(exp, dict):
         for p in body:
@@ -537,7 +544,11 @@ def refusal_class(k, spec, exp):
             for n in range(1, len(parts)):
                 at = refupdate.get_at(exp, parts[:n])
                 if at[0] == 'value' and not isinstance(at[1], (dict, list)):
-                    return 'pullall-through-scalar-refused'
+                    # repaired (7f8876a) when the scalar holds the LAST component; a scalar
+                    # further up the path is still walked into (_get_subdocument: TypeError),
+                    # known finding `pullall-deep-through-scalar-refused`
+                    return 'pullall-through-scalar-refused' if n == len(parts) - 1 else \
+                        'pullall-deep-through-scalar-refused'
     return None
 
 
@@ -807,7 +818,15 @@ def fixed_witnesses(ctx, mod):
     """the witnesses of the repaired defects (known_findings.json, status "fixed") go through the
     oracle and the model correspondence on every run: a recurrence is a VIOLATION"""
     import wire
-    eng = histcheck.Engine(ctx, mod)
+
+    class Strict(object):
+        """the property module with no excused label: whatever the oracle finds on the witness of
+        a repaired defect is a VIOLATION, the catch-all classes included"""
+        known_labels = frozenset()
+
+        def __getattr__(self, name):
+            return getattr(mod, name)
+    eng = histcheck.Engine(ctx, Strict())
     n = 0
     for e in common.load_known(ID):
         if e.get('status') != 'fixed' or not e.get('witness', {}).get('wire_history'):
